@@ -121,6 +121,8 @@ def copy_val(v):
             a.origin = v.origin
         if hasattr(v, "tl_name"):
             a.tl_name = v.tl_name
+        if hasattr(v, "fn_name"):
+            a.fn_name = v.fn_name
         return a
     if isinstance(v, Enum):
         return Enum(v.variant, v.idx, [copy_val(x) for x in v.fields])
@@ -233,11 +235,16 @@ class PathCtx:
             raise Unsupported("value outside the candidate set")
         return last
 
-    def valid(self, claim):
-        """Is `claim` implied by the path condition? Returns (True, None) or (False, model)."""
+    def valid(self, claim, prefer=()):
+        """Is `claim` implied by the path condition? Returns (True, None) or (False, model). `prefer` are
+        optional extra constraints (e.g. printable characters) used to pick a nicer counterexample if one exists."""
         r = self.ex.check(z3.Not(claim))
         if r == z3.unsat:
             return True, None
+        if prefer:
+            if self.ex.solver.check(z3.Not(claim), *prefer) == z3.sat:
+                return False, self.ex.solver.model()
+            self.ex.check(z3.Not(claim))
         return False, self.ex.solver.model()
 
 
@@ -534,6 +541,8 @@ class Interp:
 
     def call_closure(self, clos, args):
         """clos: Adt named '{closure@...}' (or a ZeroSized closure marker)"""
+        if getattr(clos, "name", None) == "fn-item":
+            return self.dispatch(clos.fn_name, list(args))
         name = self.closure_fn(clos)
         fn = self.get_fn(name)
         first_ty = fn.params[0][1]
@@ -566,6 +575,16 @@ class Interp:
             base = self.place(fr, p[1])
             idx = fr.cell(p[2]).v
             return self.index_ref(base, idx)
+        if k == "constindex":
+            # slice-pattern element `[i of n]` (the MIR has already checked the length)
+            base = self.place(fr, p[1])
+            v = base.get()
+            from models import SliceRef, VecObj
+            if isinstance(v, SliceRef):
+                return Ref(v.vec.elems[v.lo + p[2]])
+            if isinstance(v, VecObj):
+                return Ref(v.elems[p[2]])
+            raise Unsupported(f"constant index into {type(v)}")
         raise Unsupported(f"place {p}")
 
     def index_ref(self, base, idx):
@@ -618,6 +637,10 @@ class Interp:
             bits = {"usize": 64, "u64": 64, "isize": 64, "i64": 64, "u32": 32, "i32": 32, "u8": 8, "u16": 16, "i8": 8, "i16": 16,
                     "u128": 128}[ty]
             return Int(z3.BitVecVal(int(m.group(1)), bits), bits, ty.startswith("i"))
+        if s.startswith("fn-item: "):
+            a = Adt("fn-item", [])
+            a.fn_name = s[len("fn-item: "):]
+            return a
         if s.startswith("ZeroSized: "):
             ty = s[len("ZeroSized: "):]
             return Adt(ty, [])
@@ -653,7 +676,7 @@ class Interp:
         if pm:
             # a promoted constant of function <..>::name: evaluate its MIR item
             suffix = f"::{pm.group(2)}::promoted[{pm.group(3)}]"
-            cands = [n for n in self.raw if n.endswith(suffix)]
+            cands = [n for n in self.raw if n.endswith(suffix) or n == suffix[2:]]
             ty = pm.group(1).split("::")[-1]
             if len(cands) > 1:
                 cands = [n for n in cands if self.impl_type(n) == ty] or cands
@@ -732,6 +755,9 @@ class Interp:
             return ("float-of", self.operand(fr, rv[1]))  # floats are opaque: carried, never inspected
         if k == "cast":
             a = self.operand(fr, rv[1])
+            if rv[3] == "IntToInt" and z3.is_bool(a):
+                bits = {"usize": 64, "u64": 64, "u32": 32, "u8": 8, "i32": 32, "u16": 16}.get(rv[2], 8)
+                return Int(z3.If(a, z3.BitVecVal(1, bits), z3.BitVecVal(0, bits)), bits, False)
             if rv[3] == "IntToInt" and isinstance(a, Int):
                 bits = {"usize": 64, "u64": 64, "isize": 64, "i64": 64, "u32": 32, "i32": 32, "u8": 8, "char": 32, "u16": 16}.get(rv[2])
                 if bits is None:
